@@ -232,9 +232,24 @@ def _expand_includes(text, base, depth=0):
             parts = shlex.split(s[len('//@@ include '):])
             path = os.path.join(base, parts[0])
             sub = open(path).read()
+            defined = set()
             for kv in parts[1:]:
                 k, v = kv.split('=', 1)
                 sub = sub.replace('@' + k + '@', v)
+                defined.add(k)
+            # `//@@ ifndef K` ... `//@@ endif`: the block is dropped when the include line passes K=...
+            kept, skipping = [], False
+            for sl in sub.split('\n'):
+                ss = sl.strip()
+                if ss.startswith('//@@ ifndef '):
+                    skipping = ss[len('//@@ ifndef '):].strip() in defined
+                    continue
+                if ss == '//@@ endif':
+                    skipping = False
+                    continue
+                if not skipping:
+                    kept.append(sl)
+            sub = '\n'.join(kept)
             out.append(f'// ---- begin include {parts[0]} {" ".join(parts[1:])}')
             out.append(_expand_includes(sub, base, depth + 1).rstrip('\n'))
             out.append(f'// ---- end include {parts[0]}')
